@@ -172,12 +172,16 @@ ForceUnstake(s, v) ==
               rec1 == [rec EXCEPT !.tokens = 0, !.status = Unstaked]
           IN [s |-> SetVal(s3, v, rec1), ok |-> TRUE]
 
+\* trunc(power * PR * num / FracDen), computed without leaving TLC's 32-bit integers
+SlashAmt(power, num) ==
+  LET amt == power * PR IN (amt \div FracDen) * num + ((amt % FracDen) * num) \div FracDen
+
 \* slash.go slash (validateSlash + burn + force unstake below the minimum); errors are logged only
 Slash(s, v, infH, power, num) ==
   IF num < 0 \/ infH > s.height \/ ~s.val[v].ex \/ s.val[v].status = Unstaked THEN s
   ELSE
     LET rec == s.val[v]
-        slashAmt == (power * PR * num) \div FracDen
+        slashAmt == SlashAmt(power, num)
         burn == Max2(Min2(slashAmt, rec.tokens), 0)
         rec1 == [rec EXCEPT !.tokens = @ - burn]
         \* removeValidatorTokens: delete old key, SetValidator, SetStakedValidator
@@ -551,7 +555,7 @@ NoOverdue(s) == s.phase \in {"ended", "committed"} => \A v \in Users : (s.val[v]
 
 \* C07
 SlashLogExact(s) == \A i \in 1..Len(s.slashLog) :
-                      LET e == s.slashLog[i] IN e.burn = Max2(Min2((e.power * PR * e.num) \div FracDen, e.before), 0)
+                      LET e == s.slashLog[i] IN e.burn = Max2(Min2(SlashAmt(e.power, e.num), e.before), 0)
 
 \* C08
 CountMissed(q) == Cardinality({i \in 1..Len(q) : q[i]})
